@@ -3,6 +3,9 @@ package main
 import (
 	"encoding/json"
 	"fmt"
+	"runtime"
+	"sync"
+	"sync/atomic"
 	"time"
 
 	"github.com/uhppoted/uhppote-core/types"
@@ -30,6 +33,7 @@ func c16(c *Ctx) {
 	c.Res.Rule = "all 1441^2 HH:mm pairs; adjacent-day pairs, month/year boundaries and random pairs/triples of dates 0001..9999; date-times vs instants straddling second boundaries (>= 1970); SetTimeProfile segment acceptance over HH:mm pairs through the in-memory driver; oracle = lexicographic comparison of civil tuples; checks trichotomy, mirror image, transitivity; distinct = distinct pairs/triples"
 	r := c.Rng("main")
 	var caseNo int64
+	defer c16Concurrent(c)
 	if c.Mode == "tz" {
 		c16Zone(c)
 		return
@@ -403,4 +407,87 @@ func c16Zone(c *Ctx) {
 	}
 	c.Res.Count("zone-transitions-examined", int64(nTrans))
 	c.Res.Count("zone-years-swept", int64(len(years)))
+}
+
+// c16Concurrent: the verdicts do not depend on what other goroutines are comparing at the time. Every goroutine builds the same
+// day twice (with any two of the constructors) and a second day, while the others do the same with other days: the two values of
+// one day are equal, neither before nor after each other, and both stand in the calendar relation to the second day.
+func c16Concurrent(c *Ctx) {
+	G := 8
+	per := c.N(20000, 200000)
+	if old := runtime.GOMAXPROCS(0); old < 8 {
+		runtime.GOMAXPROCS(8)
+		defer runtime.GOMAXPROCS(old)
+	}
+	zone := time.Local.String()
+	z := newZoneOracle(time.Local)
+	var wg sync.WaitGroup
+	var nbad atomic.Int64
+	mk := func(k int, y, m, d int) (types.Date, bool) {
+		switch k % 4 {
+		case 0:
+			return types.ToDate(y, time.Month(m), d), true
+		case 1:
+			v, err := types.ParseDate(fmt.Sprintf("%04d-%02d-%02d", y, m, d))
+			return v, err == nil
+		case 2:
+			var v types.Date
+			err := json.Unmarshal([]byte(fmt.Sprintf(`"%04d-%02d-%02d"`, y, m, d)), &v)
+			return v, err == nil
+		default:
+			var v types.Date
+			x, err := v.UnmarshalUT0311L0x(bcdDate(y, m, d))
+			if p, ok := x.(*types.Date); ok && p != nil && err == nil {
+				return *p, true
+			}
+			return v, false
+		}
+	}
+	for g := 0; g < G; g++ {
+		wg.Add(1)
+		go func(g int) {
+			defer wg.Done()
+			rr := gen.New(c.Seed, fmt.Sprintf("C16/concurrent/%s/%d", zone, g), c.Batch)
+			for k := 0; k < per && nbad.Load() < 4; k++ {
+				a, b := rr.Date(), rr.Date()
+				if rr.Chance(0.3) {
+					b = a
+					b.D = 1 + rr.Pick(28)
+				}
+				skip := false
+				for _, x := range []rm.Val{a, b} {
+					if x.Y < 1 || x.Y > 9999 || (x.Y == 1 && x.Mo == 1 && x.D == 1) || !z.dayHasInstant(x.Y, x.Mo, x.D) {
+						skip = true
+					}
+				}
+				if skip {
+					continue
+				}
+				k1, k2, k3 := rr.Pick(4), rr.Pick(4), rr.Pick(4)
+				a1, ok1 := mk(k1, a.Y, a.Mo, a.D)
+				a2, ok2 := mk(k2, a.Y, a.Mo, a.D)
+				b1, ok3 := mk(k3, b.Y, b.Mo, b.D)
+				c.Res.Eval(1)
+				if !ok1 || !ok2 || !ok3 {
+					continue // what the constructors accept is another property's business
+				}
+				want := cmpInts([]int{a.Y, a.Mo, a.D}, []int{b.Y, b.Mo, b.D})
+				msg := ""
+				switch {
+				case !a1.Equals(a2) || a1.Before(a2) || a1.After(a2) || a2.Before(a1) || a2.After(a1):
+					msg = fmt.Sprintf("two values of the day %04d-%02d-%02d (constructors %d and %d: %v and %v) are not equal-and-neither-before-nor-after", a.Y, a.Mo, a.D, k1, k2, a1, a2)
+				case a1.Before(b1) != (want < 0) || a1.After(b1) != (want > 0) || a1.Equals(b1) != (want == 0):
+					msg = fmt.Sprintf("%04d-%02d-%02d vs %04d-%02d-%02d: before=%v equals=%v after=%v, the calendar says %d", a.Y, a.Mo, a.D, b.Y, b.Mo, b.D, a1.Before(b1), a1.Equals(b1), a1.After(b1), want)
+				case a2.Before(b1) != (want < 0) || a2.After(b1) != (want > 0) || b1.Before(a2) != (want > 0) || b1.After(a2) != (want < 0):
+					msg = fmt.Sprintf("%04d-%02d-%02d vs %04d-%02d-%02d (second value of the first day): the verdicts disagree with the calendar (%d)", a.Y, a.Mo, a.D, b.Y, b.Mo, b.D, want)
+				}
+				if msg != "" {
+					nbad.Add(1)
+					c.Res.Violate("C16:date:concurrent", fmt.Sprintf("%s while %d goroutines build and compare dates concurrently (TZ=%s)", msg, G, zone), map[string]any{"zone": zone}, -5)
+				}
+			}
+		}(g)
+	}
+	wg.Wait()
+	c.Res.Count("concurrent-date-comparisons", int64(G*per))
 }
